@@ -135,6 +135,8 @@ def _flags(rng: random.Random, monotonic: bool) -> dict[str, Any]:
 
 
 def _perturb_mode(rng: random.Random, recipe: dict[str, Any]) -> str:
+    if recipe.get("kind") != "rg":
+        return rng.choice(["add", "add", "mulpos"])
     inp = recipe.get("input", {})
     if inp.get("param") == "dirichlet" or recipe.get("positive_raw"):
         return "mulpos"
@@ -158,16 +160,24 @@ def gen_c10(rng: random.Random, tier: str) -> Plan:
         kinds = ["embedding", "embedding", "categorical", "gaussian"]
     rg = recipes.gen_rg(rng, max_vars=5)
     nv = recipes.rg_num_vars(rg)
-    r0 = recipes.gen_rg_circuit(rng, monotonic=monotonic, rg=rg, kinds=kinds)
-    if not monotonic and cfg["semiring"] == "complex-lse-sum" and rng.random() < 0.5:
-        recipes.make_complex(r0)
+    hand = (not poly) and rng.random() < 0.15
+    if hand:
+        # hand-assembled circuits: constants, mixed initialisers, a hand-built evidence layer
+        r0 = gen_hand_recipe(rng, cfg["semiring"])
+        nv = r0["nv"]
+        scope0 = [v for v in range(nv) if r0["inputs"][v].get("evidence") is None]
+    else:
+        r0 = recipes.gen_rg_circuit(rng, monotonic=monotonic, rg=rg, kinds=kinds)
+        if not monotonic and cfg["semiring"] == "complex-lse-sum" and rng.random() < 0.5:
+            recipes.make_complex(r0)
+        scope0 = list(range(nv))
     ops: list[dict[str, Any]] = []
     m = _Model()
     ops.append({"op": "compile_base", "name": "b0", "recipe": r0, "seed": _seed(rng),
                 "opt": _opt_spec(rng)})
-    m.add("b0", list(range(nv)), list(range(nv)), 0, 0, ("b0",))
+    m.add("b0", scope0, scope0, 0, 0, ("b0",))
     base_recipes = {"b0": r0}
-    if rng.random() < 0.45:
+    if not hand and rng.random() < 0.45:
         r1 = recipes.gen_rg_circuit(rng, monotonic=monotonic, rg=rg, kinds=[r0["input"]["type"]])
         r1["input"] = dict(r0["input"])  # same input family, so that multiply has a rule
         r1["sp"] = r0["sp"] if rng.random() < 0.7 else r1["sp"]
